@@ -343,6 +343,24 @@ func runCase(o *out.Out, r *gen.Rand, c int) {
 		}
 	}
 
+	// observable state of the vote set (majority, any/all flags, bit array, per-block bit arrays of the pool)
+	stateObs := func() string {
+		maj, ok := vs.TwoThirdsMajority()
+		ms := "-"
+		if ok {
+			ms = bidObs(maj)
+		}
+		st := fmt.Sprintf("%s %s %s %s", ms, b01(vs.HasTwoThirdsAny()), b01(vs.HasAll()), vs.BitArray().String())
+		for _, pb := range pool {
+			if ba := vs.BitArrayByBlockID(pb); ba != nil {
+				st += " " + ba.String()
+			} else {
+				st += " nil"
+			}
+		}
+		return st
+	}
+
 	nops := 3 + r.Intn(4*n+6)
 	// bias: a "main" block most validators vote for
 	mainB := 1 + r.Intn(2)
@@ -451,6 +469,7 @@ func runCase(o *out.Out, r *gen.Rand, c int) {
 			in := fmt.Sprintf("V %d %d %d %d %d %d %s %s", v.ValidatorIndex, addrID[v.ValidatorAddress], v.Height, v.Round, int(v.Type), tmID(v.Timestamp), bidStr(v.BlockID), sigTokens(v.Signature))
 			var added bool
 			var err error
+			before := stateObs()
 			pan := catch(func() { added, err = vs.AddVote(v) })
 			if valid {
 				offered = append(offered, tvote{idx: idx, bid: v.BlockID, valid: true})
@@ -489,6 +508,16 @@ func runCase(o *out.Out, r *gen.Rand, c int) {
 				}
 				if !valid && added {
 					o.Fail(step, "invalid-vote-added", "an invalid vote was added")
+				}
+				// C02_rejected_unchanged: a vote rejected with anything but a conflict, and a duplicate,
+				// must leave every observable of the vote set as it was
+				if (ec != "none" && ec != "conflict") || (ec == "none" && !added) {
+					if added {
+						o.Fail(step, "rejected-but-added", "AddVote returned added=true together with error class "+ec)
+					}
+					if after := stateObs(); after != before {
+						o.Fail(step, "rejected-changed-state", fmt.Sprintf("vote rejected with %s changed the vote set: %s -> %s", ec, before, after))
+					}
 				}
 			}
 			opKinds += "v"
